@@ -86,6 +86,24 @@ pub fn check_one<P: Pid>(c: &PacketCase, st: &mut Stats) -> R {
                 c.ap,
                 back
             );
+            // the parsed packet is a packet like any other: what it serialises to (e.g. when a broker forwards or stores it)
+            // must again be the encoding the specification prescribes for these field values, fixed-header flags included
+            let again = catch(|| q.to_continuous_buffer()).map_err(|pm| Fail::new("C03.bytes_ne_reference", format!("{sig}/parsed/panic"), pm))?;
+            if again != reference {
+                let d = first_diff(&again, &reference);
+                return Err(Fail::new(
+                    "C03.bytes_ne_reference",
+                    format!("{sig}/parsed"),
+                    format!(
+                        "packet {} parsed from its reference encoding serialises to different bytes: first difference at offset {}: lib …{} ref …{}",
+                        c.ap.brief(),
+                        d,
+                        hex_trunc(&again[d.saturating_sub(4).min(again.len())..], 16),
+                        hex_trunc(&reference[d.saturating_sub(4).min(reference.len())..], 16)
+                    ),
+                ));
+            }
+            ensure!(q.size() == reference.len(), "C03.bytes_ne_reference", format!("{sig}/parsed/size"), "parsed packet reports size() {} for a {}-byte encoding", q.size(), reference.len());
         }
     }
     // packets the library produces by rewriting a PUBLISH (alias added / removed, DUP set) are "bytes produced for a
